@@ -9,7 +9,7 @@ from . import sched as S
 
 class H2Session:
     def __init__(self, app_scripts, policy="fifo", seed=0, queue_size=None, max_requests=None, client_settings=None,
-                 server_names=(), config_kw=None, default_script=None, app=None, raw_client=False):
+                 server_names=(), config_kw=None, default_script=None, app=None, raw_client=False, worker="asyncio"):
         import h2.config
         import h2.connection
 
@@ -24,7 +24,7 @@ class H2Session:
         self.cfg = cfg
         self.records = []
         self.app = app(self) if app is not None else S.scripted_app(app_scripts, self.records, self.driver, default=default_script)
-        self.rig = S.ProtoRig(self.app, cfg, self.driver, alpn="h2", ssl=True)
+        self.rig = S.ProtoRig(self.app, cfg, self.driver, alpn="h2", ssl=True, worker=worker)
         self.client = h2.connection.H2Connection(h2.config.H2Configuration(
             client_side=True, header_encoding=None, normalize_outbound_headers=not raw_client, validate_outbound_headers=not raw_client))
         self.client.initiate_connection()
